@@ -291,6 +291,7 @@ def run(ctx, P):
     from . import r2
     r2.purges_keep_other_commands(ctx, P, "C07h")
     r2.interface_rules(ctx, P, "C07i", want=("status",))
+    r2.rewritten_probe_restarts(ctx, P, "C07j")
     clause_waiters(ctx, P)
     clause_a(ctx, P)
     clause_b(ctx, P)
